@@ -394,7 +394,7 @@ func (x *treeExec) register(i int, e hEntry) (accepted bool, detail string) {
 			func() {
 				defer func() { _ = recover() }()
 				o.rbWithout = c.URLPath(name, pairs...)
-				o.rbWith = c.URLPath(name, append(pairs, "withOptional", "true")...)
+				o.rbWith = c.URLPath(name, append([]string{"withOptional", "true"}, pairs...)...)
 				o.rbOK = true
 			}()
 		}
@@ -443,7 +443,7 @@ func (x *treeExec) registerMulti(i int, es []hEntry) (accepted bool, detail stri
 			func() {
 				defer func() { _ = recover() }()
 				o.rbWithout = c.URLPath(name, pairs...)
-				o.rbWith = c.URLPath(name, append(pairs, "withOptional", "true")...)
+				o.rbWith = c.URLPath(name, append([]string{"withOptional", "true"}, pairs...)...)
 				o.rbOK = true
 			}()
 		}
@@ -940,7 +940,7 @@ func (x *treeExec) run(tr *traceWriter) {
 		emitServe(rq.M, raw, rq.H, o)
 	}
 	// (3) URL building
-	for _, u := range c.URLs {
+	for ui, u := range c.URLs {
 		name := "no-such-route"
 		known := false
 		if u.Reg > 0 {
@@ -954,8 +954,12 @@ func (x *treeExec) run(tr *traceWriter) {
 			pairs = append(pairs, kv[0], decBytes(kv[1]))
 			vals = append(vals, []string{kv[0], kv[1]})
 		}
+		// the option is a pair like any other: it may come first, between the value pairs or last; any value other
+		// than "true" does not ask for the optional segment
 		if u.WithOpt {
-			pairs = append(pairs, "withOptional", "true")
+			pairs = insertPair(pairs, (ui+len(pairs))%3, "withOptional", "true")
+		} else if ui%3 == 0 {
+			pairs = insertPair(pairs, ui%2*2, "withOptional", []string{"false", "1", ""}[ui/3%3])
 		}
 		out, panicked := "", false
 		func() {
@@ -973,6 +977,20 @@ func (x *treeExec) run(tr *traceWriter) {
 		tr.emit(map[string]interface{}{"ev": "URLPath", "reg": reg, "known": known, "vals": vals, "withopt": u.WithOpt,
 			"out": encBytes(out), "panicked": panicked})
 	}
+}
+
+// insertPair puts the pair k, v first (where = 0), after the first pair (1) or last (2).
+func insertPair(pairs []string, where int, k, v string) []string {
+	at := len(pairs)
+	switch {
+	case where == 0:
+		at = 0
+	case where == 1 && len(pairs) >= 2:
+		at = 2
+	}
+	out := append([]string{}, pairs[:at]...)
+	out = append(out, k, v)
+	return append(out, pairs[at:]...)
 }
 
 func min(a, b int) int {
